@@ -66,9 +66,50 @@ func (c *Ctx) runCensus(rule string, fns []*ssa.Function, kinds map[string]bool,
 		}
 	}
 	seenKeys := map[string]bool{}
+	inRegion := map[*ssa.Function]bool{}
+	for _, f := range fns {
+		inRegion[f] = true
+	}
 	for _, p := range an.Census(fns, kinds) {
 		p := p
 		an.AutoDischarge(&p)
+		if !p.Discharged && p.LiftParam != nil {
+			// the size is a parameter: the obligation is lifted to every call site in the census region
+			idx := -1
+			for i, q := range p.Fn.Params {
+				if q == p.LiftParam {
+					idx = i
+				}
+			}
+			lifted, allOK := 0, true
+			ord := map[string]int{}
+			for _, caller := range fns {
+				for _, cs := range an.Calls(caller) {
+					if an.StaticCallee(cs.Common) != p.Fn || idx >= len(cs.Common.Args) {
+						continue
+					}
+					lifted++
+					arg := cs.Common.Args[idx]
+					if _, isConst := an.ConstInt(arg); isConst || an.NonNeg(arg, 0) {
+						continue
+					}
+					allOK = false
+					base := an.ShortName(caller) + "/lifted-" + p.Kind + ":" + an.ShortName(p.Fn)
+					ord[base]++
+					lk := sprintf("ppo:%s#%d", base, ord[base])
+					seenKeys[c.R.Property+"/"+rule+"/"+lk] = true
+					n++
+					if e, ok := tri[c.R.Property+"/"+rule+"/"+lk]; ok {
+						accepted++
+						c.R.Hold(rule, lk, c.pos(cs.Pos()), "accepted: "+e.Reason)
+						continue
+					}
+					c.R.Violate(rule, lk, c.pos(cs.Pos()), "the size handed to "+an.ShortName(p.Fn)+" (which allocates it) is neither constant nor non-negative by construction nor guarded: "+an.NewTracer().OriginString(arg))
+				}
+			}
+			_ = allOK
+			p.Discharged, p.Why = true, sprintf("size is a parameter: obligation lifted to %d call site(s) in the region", lifted)
+		}
 		n++
 		key := "ppo:" + p.Key
 		seenKeys[c.R.Property+"/"+rule+"/"+key] = true
